@@ -12,6 +12,9 @@ FORMS = {
     "method_arg": (["tl: [int...] = [d]", "tl.push(x)", "acc = tl[1]"], lambda x, d: ([], x)),
     "list_literal": (["tl: [int...] = [d, x]", "acc = tl[1]"], lambda x, d: ([], x)),
     "map_literal": (['tm = map[str, int] {"k": x}', 'acc = (tm["k"]) or 0'], lambda x, d: ([], x)),
+    # the captured variable is the KEY of a map literal and appears nowhere else in the closure
+    "map_literal_key": (['tm = map[int, int] {x: 1}', 'tk = tm.keys()', 'acc = tm.len() * 100 + tk[0]'], lambda x, d: ([], 100 + x)),
+    "map_literal_key_only": (['tm = map[int, str] {x: "s"}', 'tk = tm.keys()', 'acc = tk[0]'], lambda x, d: ([], x)),
     # ("map_key": `tm[x] = d` with a captured key is rejected by the compiler's type check — observed, outside this property)
     "index": (["acc = tbl[x % 3]"], lambda x, d: ([], [5, 6, 7][x % 3])),
     "index_write_value": (["tl: [int...] = [d]", "tl[0] = x", "acc = tl[0]"], lambda x, d: ([], x)),
